@@ -48,7 +48,7 @@ theorem not_fires_of_rejected (z : Zone) (prevSec w : Int)
 
 /-- the reading returned for an `.ok` result is the matching reading the loop accepted -/
 theorem C14_result_reading (f : Fields) (hwf : WellFormed f = true) (z : Zone) (prev : Int)
-    (hp : 0 ≤ prev) (r : Int) (h : nextFire {} f z prev = .ok r) :
+    (hp : -9223372036854775808 ≤ prev) (r : Int) (h : nextFire {} f z prev = .ok r) :
     ∃ next, r = next * 1000000000 ∧ next ∈ cands z (prev / 1000000000) (reading z next).toSeconds ∧
       Fires z (prev / 1000000000) (reading z next).toSeconds next ∧ Matches f (reading z next) := by
   obtain ⟨nw, next, hm, _, hcand, e1, e2, hr, _⟩ := nextFire_ok_spec f hwf z prev hp r h
@@ -65,7 +65,7 @@ theorem C14_result_reading (f : Fields) (hwf : WellFormed f = true) (z : Zone) (
 set_option linter.unusedVariables false in
 /-- soundness: a returned value is a whole second strictly after prev whose wall-clock reading in
     the location satisfies the expression -/
-theorem C14_sound (f : Fields) (hwf : WellFormed f = true) (z : Zone) (prev : Int) (hp : 0 ≤ prev)
+theorem C14_sound (f : Fields) (hwf : WellFormed f = true) (z : Zone) (prev : Int) (hp : -9223372036854775808 ≤ prev)
     (hz : ∀ u, -100000 ≤ z.offsetAt u ∧ z.offsetAt u ≤ 100000)
     (r : Int) (h : nextFire {} f z prev = .ok r) :
     r % 1000000000 = 0 ∧ prev < r ∧ Matches f (reading z (r / 1000000000)) := by
@@ -81,7 +81,7 @@ set_option linter.unusedVariables false in
 /-- every matching local reading L that was passed over (strictly between prev's reading and the
     returned one) cannot be named after prev: each candidate instant either does not show L
     (spring-forward gap) or is not after prev (earlier pass of a fall-back) -/
-theorem C14_no_miss (f : Fields) (hwf : WellFormed f = true) (z : Zone) (prev : Int) (hp : 0 ≤ prev)
+theorem C14_no_miss (f : Fields) (hwf : WellFormed f = true) (z : Zone) (prev : Int) (hp : -9223372036854775808 ≤ prev)
     (hz : ∀ u, -100000 ≤ z.offsetAt u ∧ z.offsetAt u ≤ 100000)
     (r : Int) (h : nextFire {} f z prev = .ok r) (L : Civil) (hL : Matches f L)
     (h1 : Civil.lexLt (reading z (prev / 1000000000)) L)
@@ -98,7 +98,7 @@ theorem C14_no_miss (f : Fields) (hwf : WellFormed f = true) (z : Zone) (prev : 
 
 set_option linter.unusedVariables false in
 /-- expiry is reported only when no matching local reading ahead can be named after prev -/
-theorem C14_expiry (f : Fields) (hwf : WellFormed f = true) (z : Zone) (prev : Int) (hp : 0 ≤ prev)
+theorem C14_expiry (f : Fields) (hwf : WellFormed f = true) (z : Zone) (prev : Int) (hp : -9223372036854775808 ≤ prev)
     (hz : ∀ u, -100000 ≤ z.offsetAt u ∧ z.offsetAt u ≤ 100000)
     (h : nextFire {} f z prev = .expired) (L : Civil) (hL : Matches f L)
     (h1 : Civil.lexLt (reading z (prev / 1000000000)) L) :
@@ -106,13 +106,13 @@ theorem C14_expiry (f : Fields) (hwf : WellFormed f = true) (z : Zone) (prev : I
   not_fires_of_rejected z _ _ (nextFire_expired_spec f hwf z prev hp h L hL h1)
 
 /-- the retry loop ends: the model's fuel is never exhausted -/
-theorem C14_terminates (f : Fields) (hwf : WellFormed f = true) (z : Zone) (prev : Int) (hp : 0 ≤ prev)
+theorem C14_terminates (f : Fields) (hwf : WellFormed f = true) (z : Zone) (prev : Int) (hp : -9223372036854775808 ≤ prev)
     (hz : ∀ u, -100000 ≤ z.offsetAt u ∧ z.offsetAt u ≤ 100000) :
     nextFire {} f z prev ≠ .outOfFuel :=
   nextFire_zone_ne_outOfFuel f hwf z prev hp hz
 
 /-- a definite answer: a value strictly after prev, or expiry -/
-theorem C14_total (f : Fields) (hwf : WellFormed f = true) (z : Zone) (prev : Int) (hp : 0 ≤ prev)
+theorem C14_total (f : Fields) (hwf : WellFormed f = true) (z : Zone) (prev : Int) (hp : -9223372036854775808 ≤ prev)
     (hz : ∀ u, -100000 ≤ z.offsetAt u ∧ z.offsetAt u ≤ 100000) :
     (∃ r, nextFire {} f z prev = .ok r ∧ prev < r) ∨ nextFire {} f z prev = .expired := by
   cases h : nextFire {} f z prev with
@@ -123,7 +123,7 @@ theorem C14_total (f : Fields) (hwf : WellFormed f = true) (z : Zone) (prev : In
 /-- away from transitions: if the zone behaves like one fixed offset c at prev and at the first
     candidate, the result is exactly the earliest matching local time -/
 theorem C14_exact_away_from_transitions (f : Fields) (hwf : WellFormed f = true) (z : Zone)
-    (prev : Int) (hp : 0 ≤ prev) (hz : ∀ u, -100000 ≤ z.offsetAt u ∧ z.offsetAt u ≤ 100000)
+    (prev : Int) (hp : -9223372036854775808 ≤ prev) (hz : ∀ u, -100000 ≤ z.offsetAt u ∧ z.offsetAt u ≤ 100000)
     (t : Civil) (ht : csmNext {} f (reading z (prev / 1000000000)) = some (some t))
     (hd : z.date t.toSeconds = t.toSeconds - z.offsetAt (prev / 1000000000))
     (ho : z.offsetAt (t.toSeconds - z.offsetAt (prev / 1000000000)) = z.offsetAt (prev / 1000000000)) :
@@ -134,7 +134,7 @@ set_option linter.unusedVariables false in
 /-- and that earliest matching local time is characterised as in C01/C02: it matches, is above prev's
     reading, and nothing matching lies between -/
 theorem C14_exact_is_least (f : Fields) (hwf : WellFormed f = true) (z : Zone)
-    (prev : Int) (hp : 0 ≤ prev) (hz : ∀ u, -100000 ≤ z.offsetAt u ∧ z.offsetAt u ≤ 100000)
+    (prev : Int) (hp : -9223372036854775808 ≤ prev) (hz : ∀ u, -100000 ≤ z.offsetAt u ∧ z.offsetAt u ≤ 100000)
     (t : Civil) (ht : csmNext {} f (reading z (prev / 1000000000)) = some (some t))
     (hd : z.date t.toSeconds = t.toSeconds - z.offsetAt (prev / 1000000000))
     (ho : z.offsetAt (t.toSeconds - z.offsetAt (prev / 1000000000)) = z.offsetAt (prev / 1000000000)) :
@@ -145,7 +145,7 @@ theorem C14_exact_is_least (f : Fields) (hwf : WellFormed f = true) (z : Zone)
 /-- a fall-back repeat fires at most twice per reading and a chain never returns the same instant
     twice: results strictly increase -/
 theorem C14_chain_increasing (f : Fields) (hwf : WellFormed f = true) (z : Zone) (prev : Int)
-    (hp : 0 ≤ prev) (hz : ∀ u, -100000 ≤ z.offsetAt u ∧ z.offsetAt u ≤ 100000)
+    (hp : -9223372036854775808 ≤ prev) (hz : ∀ u, -100000 ≤ z.offsetAt u ∧ z.offsetAt u ≤ 100000)
     (r r' : Int) (h : nextFire {} f z prev = .ok r) (h' : nextFire {} f z r = .ok r') : r < r' := by
   have hpr := (C14_sound f hwf z prev hp hz r h).2.1
   exact (C14_sound f hwf z r (by omega) hz r' h').2.1
@@ -154,7 +154,7 @@ theorem C14_chain_increasing (f : Fields) (hwf : WellFormed f = true) (z : Zone)
     increase, so a reading repeated by a fall-back is fired once by a chain that passes through its
     first occurrence (and a second time only from a prev inside the repeated hour, `exFall_second_pass`) -/
 theorem C14_reading_advances (f : Fields) (hwf : WellFormed f = true) (z : Zone) (prev : Int)
-    (hp : 0 ≤ prev) (r : Int) (h : nextFire {} f z prev = .ok r) :
+    (hp : -9223372036854775808 ≤ prev) (r : Int) (h : nextFire {} f z prev = .ok r) :
     Civil.lexLt (reading z (prev / 1000000000)) (reading z (r / 1000000000)) := by
   obtain ⟨nw, next, hm, hlt, _, e1, _, hr, _⟩ := nextFire_ok_spec f hwf z prev hp r h
   subst hr
@@ -393,5 +393,33 @@ example : nextFire {} exHalf exSpringTZ.toZone 999000000000000 = .ok 10026000000
 example : nextFire {} exHalf exFallTZ.toZone 998000000000000 = .ok 1002600000000000 := by decide +kernel
 example : nextFire {} exHalf exFallTZ.toZone 999000000000000 = .ok 1006200000000000 := by decide +kernel
 example : nextFire {} exHalf exFallTZ.toZone 1000100000000000 = .ok 1002600000000000 := by decide +kernel
+
+/-! ### a `prev` before 1970 (negative) -/
+
+/-- half an hour and 1 ns before the epoch, in the spring-forward location: 23:30:00Z of 1969-12-31 -/
+theorem exSpring_neg : nextFire {} exHalf exSpring (-1800000000001) = .ok (-1800000000000) := by
+  decide +kernel
+
+theorem exSpring_neg2 : nextFire {} exHalf exSpring (-1800000000000) = .ok 1800000000000 := by
+  decide +kernel
+
+example : (-1800000000000 : Int) % 1000000000 = 0 ∧ (-1800000000001 : Int) < -1800000000000 ∧
+    Matches exHalf (reading exSpring (-1800000000000 / 1000000000)) :=
+  C14_sound exHalf exHalf_wf exSpring _ (by omega) exSpring_bounded _ exSpring_neg
+
+example : nextFire {} exHalf exSpring (-9223372036854775808) ≠ .outOfFuel :=
+  C14_terminates exHalf exHalf_wf exSpring _ (by omega) exSpring_bounded
+
+example : (∃ r, nextFire {} exHalf exSpring (-1800000000001) = .ok r ∧ -1800000000001 < r) ∨
+    nextFire {} exHalf exSpring (-1800000000001) = .expired :=
+  C14_total exHalf exHalf_wf exSpring _ (by omega) exSpring_bounded
+
+example : (-1800000000000 : Int) < 1800000000000 :=
+  C14_chain_increasing exHalf exHalf_wf exSpring (-1800000000001) (by omega) exSpring_bounded _ _
+    exSpring_neg exSpring_neg2
+
+example : Civil.lexLt (reading exSpring (-1800000000001 / 1000000000))
+    (reading exSpring (-1800000000000 / 1000000000)) :=
+  C14_reading_advances exHalf exHalf_wf exSpring _ (by omega) _ exSpring_neg
 
 end Cron
